@@ -104,7 +104,7 @@ def path_seq(ctx, job, box):
 
 def jobs(tier):
     js = []
-    gs = [(1, 1), (2, 2), (3, 2)] if tier == 'quick' else [(1, 1), (2, 1), (1, 2), (2, 2), (3, 2), (2, 3), (3, 3)]
+    gs = [(1, 1), (2, 2), (3, 2), (1, 3), (1, 4)] if tier == 'quick' else [(1, 1), (2, 1), (1, 2), (2, 2), (3, 2), (2, 3), (3, 3)]
     for g in gs:
         js.append(Job('single/%dx%d' % g, path_single, geom=g, prop=PROP))
     js.append(Job('single+savepoint/2x2', path_single, geom=(2, 2), sp=1, prop=PROP))
@@ -118,7 +118,7 @@ def jobs(tier):
 META = {
     'functions': ['Screen::resize', 'save_cursor', 'restore_cursor', 'cursor_position', 'delete_lines', 'set_margins',
                   'ensure_hbounds', 'ensure_vbounds'],
-    'bounds': 'geometries {1x1,2x2,3x2,2x3} (thorough + {2x1,1x2,3x3}), every cell/row present or absent, margins, DECOM, '
+    'bounds': 'geometries {1x1,2x2,3x2,1x3,1x4} (thorough + {2x1,1x2,3x3}), every cell/row present or absent, margins, DECOM, '
               'pending-wrap cursor symbolic; target sizes 1..=size+2 in both dimensions (absent = keep); two-step '
               'sequences [resize | ICH | EL | RI | IND | DL | IL | draw | ECH | DCH] then resize on 2x2 (thorough + 3x2, 2x3)',
     'outside': 'larger screens; sequences longer than two steps; the DECCOLM round trip is part of C12',
